@@ -83,7 +83,7 @@ def run_gen(ctx, runname, n, P, basis=None, delay=None, tag=""):
 
 def cases(ctx):
     if ctx.quick:
-        libs = [("core_maths", 3, None), ("core_maths", 4, None), ("keep_duplicates", 3, None), ("verif_a", 4, SUBBASES[0][1])]
+        libs = [("core_maths", 3, None), ("core_maths", 4, None), ("keep_duplicates", 3, None), ("verif_a", 4, SUBBASES[0][1]), ("core_maths", 5, None)]
         ranks = [2, 3, 5, 16]
         delays = {3: [ctx.seed]}
     else:
@@ -104,6 +104,17 @@ def correspondence(ctx):
     if bad:
         rep.fail("broken-correspondence", "generation modules use communication outside the modelled collectives: %s" % bad[:5],
                  "C13:comm-scan", observed=bad, theorem="C13_schedule_independent (Model/Bsp.v covers gather/bcast/scatter/Barrier only)")
+    # tie of the hand-written distribution skeletons (Model/Dist.v): the statements they were written against are unchanged
+    sys.path.insert(0, os.path.join(esrv.VERIF, "harness", "corr"))
+    import c13_skeleton
+    want = json.load(open(os.path.join(esrv.VERIF, "harness", "corr", "c13_skeleton.json")))
+    got = c13_skeleton.fingerprint(ctx.scratch)
+    for k in sorted(set(want) | set(got)):
+        if want.get(k) != got.get(k):
+            a, b = want.get(k) or [], got.get(k) or []
+            diff = [x for x in a if x not in b][:4], [x for x in b if x not in a][:4]
+            rep.fail("broken-correspondence", "communication skeleton of %s changed; Model/Dist.v was written against the previous one (removed %r, added %r)" % (k, diff[0], diff[1]),
+                     "C13:skeleton:%s" % k.split("::")[1], observed={"removed": diff[0], "added": diff[1]}, theorem="C13 distribution-skeleton theorems (Model/Dist.v)")
     libs, ranks, delays = cases(ctx)
     ctx.oracle_jobs = []
     stats = {"runs": 0, "ranks": sorted(set([1] + ranks)), "libs": [l[:2] for l in libs]}
@@ -117,6 +128,8 @@ def correspondence(ctx):
             continue
         ctx.oracle_jobs.append((runname, n, 1, liboracle.load_library(ref["lib"], n)))
         todo = [(P, None) for P in ranks] + [(P, d) for P, ds in delays.items() for d in ds]
+        if ctx.quick and n >= 5:
+            todo = [(2, None), (3, None)]
         for P, delay in todo:
             out = run_gen(ctx, runname, n, P, basis, delay)
             stats["runs"] += 1
